@@ -34,6 +34,13 @@ PROPS = {
         'trusted_base': L1_TRUST,
         'assumptions': [],
     },
+    'C15': {
+        'coq': ['theories/Props/C15.vo', 'theories/Inst/C15_now.vo'],
+        'profiles': [prof('panic', (40, 2), (400, 4), real=True)],
+        'monitors': ['C15', 'C03', 'C04', 'C07'], 'liveness': True, 'panics': True,
+        'trusted_base': ['Panic/Absorb.v: the queue-state word under arbitrary sequences of table-driven events; the unwinding itself (guards run, thread dies, reaping) is exercised on real threads, not modelled'],
+        'assumptions': ['panic scenarios run on real threads (the controlled runtime treats an unwinding task as a failed test), so their interleavings are sampled by the OS scheduler under scripted ordering constraints'],
+    },
     'C17': {
         'correspondence': CORR_L1,
         'coq': ['theories/Props/C17.vo', 'theories/Inst/C17_now.vo'],
